@@ -996,10 +996,116 @@ def history_claims(s, I):
     return out
 
 
+HISTORY_DRIVER = r"""
+#[cfg(test)]
+mod verif_replay {
+    use super::*;
+    use std::io::{Cursor, Read, Seek, Write};
+%(helpers)s
+    #[test]
+    fn verif_replay_case() {
+        let d1: Vec<u8> = %(d1)s;
+        let d2: Vec<u8> = %(d2)s;
+        let mut w = PagedWriter::new(Cursor::new(Vec::new())).unwrap();
+        let mut ok = true;
+        ok &= w.write_all(&d1).is_ok();
+        ok &= w.flush().is_ok();
+        ok &= w.physical_seek(%(p)d).is_ok();
+        ok &= w.write_all(&d2).is_ok();
+        ok &= w.flush().is_ok();
+        println!("VR steps={}", if ok { "ok" } else { "err" });
+        println!("VR pos={}", w.physical_position().unwrap_or(u64::MAX));
+        let dev: Vec<u8> = w.writer.get_ref().clone();
+        println!("VR dev=x{}", vhex(&dev));
+        std::mem::forget(w);
+        if %(with_reader)s {
+            match crate::paged_reader::PagedReader::new(Cursor::new(dev), 1024) {
+                Err(_) => println!("VR rnew=err"),
+                Ok(mut r) => {
+                    println!("VR rnew=ok");
+                    match r.seek_physical(%(rq)d) {
+                        Err(_) => println!("VR rseek=err"),
+                        Ok(_) => {
+                            println!("VR rseek=ok");
+                            let mut dst = vec![0u8; %(m)d];
+                            match r.read_exact(&mut dst) { Ok(()) => println!("VR rres=ok dst=x{}", vhex(&dst)), Err(_) => println!("VR rres=err") }
+                        }
+                    }
+                }
+            }
+        }
+    }
+}
+"""
+
+
+class HistoryReplay:
+    """Native replay of the writer / writer+reader history: the same operations with the model's data on the real crate over an
+    in-memory device; the outcome is judged in Python against the definition (stream written, patched, zero-filled to whole
+    pages; every page sealed with CRC-32C; the reader returns the logical stream)."""
+
+    def extract(self, I, model, s):
+        n1, n2 = mval(model, s.n1), mval(model, s.n2)
+        pre = dict(n1=n1, n2=n2, p=mval(model, s.p), d1=mbytes(model, s.d1.fn, n1), d2=mbytes(model, s.d2.fn, n2), with_reader=hasattr(s, "rnew"))
+        pre["rq"] = mval(model, s.rq) if hasattr(s, "rq") else 0
+        pre["m"] = mval(model, s.m) if hasattr(s, "m") else 0
+        return pre
+
+    def run(self, I, scenario, claim_name, pre):
+        code = HISTORY_DRIVER % dict(helpers=HELPERS, d1=rust_bytes(pre["d1"]), d2=rust_bytes(pre["d2"]), p=pre["p"], rq=pre["rq"], m=min(pre["m"], 1 << 20),
+                                     with_reader="true" if pre["with_reader"] else "false")
+        rc, out = run_rust_test(I.crate_dir, "paged_writer.rs", code)
+        kv = parse_kv(out)
+        info = dict(pre={k: (len(v) if isinstance(v, bytes) else v) for k, v in pre.items()}, rust=code)
+        pan = native_panicked(out)
+        if claim_name == "no panic":
+            return (pan is not None), "native: " + (pan or "no panic"), info
+        if pan or "dev" not in kv:
+            return False, "native run did not complete: " + (pan or out[-400:]), info
+        lp = pre["p"] - 4 * (pre["p"] // PAGE)
+        expect = bytearray(pre["d1"])
+        expect[lp:lp + pre["n2"]] = pre["d2"]
+        npages = (pre["n1"] + PAYLOAD - 1) // PAYLOAD
+        expect += bytes(npages * PAYLOAD - len(expect))
+        dev = bytes.fromhex(kv["dev"][1:])
+        bad = []
+        if kv.get("steps") != "ok":
+            bad.append("a step returned Err")
+        if len(dev) != npages * PAGE:
+            bad.append("file size %d, expected %d" % (len(dev), npages * PAGE))
+        for pg in range(min(npages, len(dev) // PAGE)):
+            page = dev[pg * PAGE:(pg + 1) * PAGE]
+            if page[:PAYLOAD] != bytes(expect[pg * PAYLOAD:(pg + 1) * PAYLOAD]):
+                bad.append("payload of page %d differs from the stream written and patched" % pg)
+            if crc32c(page[:PAYLOAD]).to_bytes(4, "big") != page[PAYLOAD:]:
+                bad.append("checksum of page %d is not the CRC-32C of its payload" % pg)
+        if int(kv.get("pos", "0")) != (lp + pre["n2"]) + 4 * ((lp + pre["n2"]) // PAYLOAD):
+            bad.append("cursor after the patch")
+        if pre["with_reader"] and not bad:
+            if kv.get("rnew") != "ok":
+                bad.append("reader does not open the file")
+            else:
+                inside = pre["rq"] < len(dev)
+                if (kv.get("rseek") == "ok") != inside:
+                    bad.append("seek_physical Ok iff inside the file")
+                elif kv.get("rseek") == "ok":
+                    lq = pre["rq"] - 4 * (pre["rq"] // PAGE)
+                    fits = lq + pre["m"] <= npages * PAYLOAD
+                    if (kv.get("rres") == "ok") != fits:
+                        bad.append("read_exact Ok iff the range lies inside the logical file")
+                    elif kv.get("rres") == "ok" and bytes.fromhex(kv.get("dst", "x")[1:]) != bytes(expect[lq:lq + pre["m"]]):
+                        bad.append("bytes read differ from the logical stream")
+        info["native_findings"] = bad
+        if bad:
+            return True, "native run of the same history: " + "; ".join(bad[:3]), info
+        return False, "the native run of the same history satisfies every claim", info
+
+
 def history_scenarios(tier="quick"):
-    out = [Scenario("history new;write_all;flush;physical_seek;write_all;flush (writer)", history_scenario(False), history_claims, max_paths=600, time_budget=900)]
+    rp = HistoryReplay()
+    out = [Scenario("history new;write_all;flush;physical_seek;write_all;flush (writer)", history_scenario(False), history_claims, max_paths=600, time_budget=900, replayer=rp)]
     out.append(Scenario("history ... then PagedReader::new;seek_physical;read_exact", history_scenario(True, max_n1=1100 if tier == "quick" else 2100, max_n2=8 if tier == "quick" else 40, max_m=150 if tier == "quick" else 1100),
-                        history_claims, max_paths=1500, time_budget=1500))
+                        history_claims, max_paths=1500, time_budget=1500, replayer=rp))
     return out
 
 
